@@ -173,6 +173,10 @@ def opCliMeth (args : List SExp) : Option OpResult := do
       pure ⟨"?object-parser-not-modelled", fun got =>
         let c := (split got).1
         if c = "panic" || c = "hang" then [("C14", s!"client-{c}-in-object-parser")] else []⟩
+    | .list [.atom "header"] =>
+      pure ⟨"?header-parsers-not-modelled", fun got =>
+        let c := (split got).1
+        if c = "panic" || c = "hang" then [("C14", s!"client-{c}-on-a-response-header")] else []⟩
     | .list [.atom "carry", _] =>
       -- two resources, the second reporting under 404 what the first reports under 200
       let judge : String → List (String × String) := fun got =>
